@@ -84,6 +84,14 @@ pub(crate) async fn load(config: &Config) -> PersistenceResult<Worterbuch> {
     }
 }
 
+#[cfg(feature = "verif")]
+pub(crate) async fn verif_asynchronous(
+    worterbuch: &CloneableWbApi,
+    config: &Config,
+) -> PersistenceResult<()> {
+    v3::verif_asynchronous(worterbuch, config).await
+}
+
 #[derive(PartialEq)]
 pub struct PersistentJsonStorage {
     config: Config,
